@@ -46,7 +46,8 @@ PostOK(clx, evx, gix, procx, msgsx, c, g, p) ==
     /\ V("st") => Chk("st", c, p.st = gs.rec.st, gs.rec.st)
     /\ V("mls") => Chk("mls", c, p.mls = gs.mls, gs.mls)
     /\ (gs.mls = "ok" /\ p.mls = "ok") =>
-         /\ V("chain") => Chk("chain", c, p.chain = gs.chain /\ p.epoch = gix[g].base + Len(gs.chain), gs.chain)
+         \* (chain_ok = FALSE: the harness could not name the MLS state unambiguously; the epoch is still bound)
+         /\ V("chain") => Chk("chain", c, (p.chain_ok => p.chain = gs.chain) /\ p.epoch = gix[g].base + Len(gs.chain), gs.chain)
          /\ V("members") => Chk("members", c, Range(p.members) = s.members, s.members)
          /\ V("pend") => Chk("pend", c, p.pend = (gs.pend # NoE), gs.pend)
          /\ V("props") => Chk("props", c, p.nprops = Cardinality(gs.props), gs.props)
@@ -142,6 +143,10 @@ TSnapshot ==
     /\ UNCHANGED vars
     /\ \A i \in DOMAIN R.posts : PostOK(cl', ev', ginfo', proc', msgs', R.posts[i].c, R.posts[i].g, R.posts[i].post)
 
+TJunk ==
+    /\ R.op = "Junk"
+    /\ IF R.res = "Ok" THEN PublishJunk(R.c, R.g, NM(R.e), R.class, R.tag, R.base, R.parent) ELSE UNCHANGED vars
+
 TRestart ==
     /\ R.op = "Restart"
     /\ Restart(R.c)
@@ -157,8 +162,9 @@ TraceInit == Init /\ l = 2
 TraceNext ==
     /\ l <= Len(Rec)
     /\ l' = l + 1
-    /\ \/ TMeta \/ TCreate \/ TCommit \/ TMerge \/ TClear \/ TSend \/ TLeave \/ TDeliver \/ TQuiesce \/ TWelcome \/ TRestart \/ TSnapshot
+    /\ \/ TMeta \/ TCreate \/ TCommit \/ TMerge \/ TClear \/ TSend \/ TLeave \/ TDeliver \/ TQuiesce \/ TWelcome \/ TRestart \/ TSnapshot \/ TJunk
 
+ObsSame(c) == ObsOf(c)' = ObsOf(c)
 \* property invariants, evaluated by TLC in every state of every real trace
 InvC01 == hist.q => C01_Excused
 InvC01Plain == hist.q => C01_Plain
@@ -169,6 +175,16 @@ ActC03 == [][\A c \in Clients : (R.op \in {"Deliver", "Send"} /\ R.c = c /\ cl[c
                                   => (R.res \notin {"App", "Ok"} /\ msgs'[c] = msgs[c])]_tvars
 InvC08 == C08_Mirror
 InvC18 == C18_Pointer
+\* C06: no panic anywhere; a refused process_message leaves everything observable as it was
+ActC06 == [][/\ ("res" \in DOMAIN R) => R.res # "Panic"
+             /\ \A c \in Clients : (R.op = "Deliver" /\ R.c = c /\ R.res \in Refusals /\ R.e \in DOMAIN ev)
+                   => \/ ObsSame(c)
+                      \/ /\ Excused_RefusedLeaveQueued(c, R.e)
+                         /\ PrintT(<<"KNOWN-FINDING", "C06", "RefusedLeaveStaysQueued", c, R.e>>)
+                      \/ /\ "RollbackBeforeValidation" \in Dev
+                         /\ hist'.notifs # <<>>         \* rolled back, then the candidate turned out not to apply
+                         /\ PrintT(<<"KNOWN-FINDING", "C06", "RollbackBeforeValidation", c, R.e>>)
+                      \/ (PrintT("VIOLATION-DETAIL " \o ToString(<<"C06 refused event changed state", c, R.e, R.res>>)) /\ FALSE)]_tvars
 InvC16 == C16_ConsentGated
 \* no invitation modifies or disables a group in which the user is already an active member
 ActC16 == [][\A c \in Clients, g \in Groups :
@@ -182,11 +198,13 @@ ActC16Join == [][\A c \in Clients : (R.op = "Welcome" /\ R.c = c /\ R.what = "ac
                    /\ cl'[c][R.g].rec.st = "active")]_tvars
 \* action properties on the real trace
 ActC02 == [][C02_ContentImmutable \/ R.op = "Reset"]_tvars
-ObsSame(c) == ObsOf(c)' = ObsOf(c)
 \* (bound variables are rigid: priming ObsOf(R.c) would read the *next* trace line)
 ActC07 == [][\A c \in Clients : (R.op = "Deliver" /\ R.c = c /\ R.e \in DOMAIN ev /\ Handled(c, R.e)) => ObsSame(c)]_tvars
 InvC20 == C20_Bounded
 InvSecrets == SecretsMatch
+
+\* development aid: STOPAT=<line> makes TLC print the state reached just before that line
+DebugStop == ~("STOPAT" \in DOMAIN IOEnv /\ ToString(l) = IOEnv.STOPAT)
 
 TraceSpec == TraceInit /\ [][TraceNext]_tvars
 
